@@ -86,7 +86,8 @@ class C17(Check):
         if rng.chance(0.22):
             return {"mode": "threads", "world_seed": rng.u64(), "ncpu": rng.choice([2, 3, 4, 5, 8, 16]), "sched": rng.u64() >> 1,
                     "backend": rng.choice(["rbtree", "rbtree", "bitarray"]), "read_fault": rng.choice([None, None, None, "short_r", "eio_r"]),
-                    "fault_nth": rng.range(1, 40), "tsan": rng.chance(0.5)}
+                    "fault_nth": rng.range(1, 40), "tsan": rng.chance(0.5), "tail_damage": rng.chance(0.45),
+                    "tail_seed": rng.u64()}
         cfg = rng.choice(CONFIGS)
         fault = None
         if rng.chance(0.4):
@@ -399,6 +400,34 @@ class C17(Check):
         cmds, _d = gen_population(rng, cfg, wd, scale=1.0, big_dir=rng.choice([0, 150]))
         debugfs_script(img, cmds, wd, tag="pop", rand_seed=3)
         groups = (cfg["size_kib"] * 1024 // cfg["bs"]) // cfg["bpg"]
+        # media fault in the padding behind the used part of a bitmap block (not covered by the bitmap checksum): the
+        # loader must raise the *_TAIL_PROBLEM flags -- the same ones with any number of threads
+        ntail = 0
+        if spec.get("tail_damage"):
+            try:
+                import refext4
+                trng = Rng(spec["tail_seed"])
+                rfs = refext4.RefFS(path=img)
+                bs_ = rfs.block_size
+                with open(img, "r+b") as f:
+                    for g in trng.sample(range(rfs.group_count), trng.range(1, 3)):
+                        gd = rfs.group_desc(g)
+                        fl = rfs.group_flags(g)
+                        which = trng.choice(["block", "inode", "both"])
+                        for kind, blk, nbits, uninit in (("block", gd["bg_block_bitmap"], rfs.clusters_per_group, fl & 2),
+                                                         ("inode", gd["bg_inode_bitmap"], rfs.inodes_per_group, fl & 1)):
+                            if which not in (kind, "both") or uninit or nbits // 8 >= bs_:
+                                continue
+                            off = blk * bs_ + trng.range((nbits + 7) // 8, bs_ - 1)
+                            f.seek(off)
+                            c = f.read(1)[0]
+                            f.seek(off)
+                            f.write(bytes([c & ~(1 << trng.below(8)) & 0xFF]))
+                            ntail += 1
+            except Exception as ex:
+                o.observations.append("tail damage not applied: %r" % ex)
+        if ntail:
+            o.stats["fault.bitmap_tail_padding"] += ntail
         base = run_sim([tool("h_rwbitmaps"), img, spec["backend"]], Plan([img], None, ncpu=1), wd, tag="one")
         if base.status != 0 or b"bhash" not in base.out:
             o.observations.append("single-thread load failed: %r" % base.out[-200:])
@@ -435,6 +464,8 @@ class C17(Check):
                 o.violate("threads|eio_swallowed", "a read failed in one thread, ext2fs_read_bitmaps returned 0 and the bitmaps differ from the "
                           "single-thread result: %s" % where, skey="eio_swallowed")
             return
+        if ntail and b"flags=0x" in base.out and not base.out.rstrip().endswith(b"flags=0"):
+            o.stats["probe.tail_problem_flagged"] += 1
         if tl != bl:
             o.violate("threads|result_differs", "threaded result %r != single-thread result %r: %s" % (tl, bl, where), skey="result_differs")
             return
